@@ -4,6 +4,7 @@ package repl
 
 import (
 	"context"
+	"os"
 	"strings"
 
 	"grol.io/grol/eval"
@@ -141,4 +142,105 @@ func VerifAutoSave(args []string) {
 		c2, _ := vFSContent(AutoSaveFile)
 		vAssert(c1 == c2 && len(vFSList()) == before, "autosave/saves-again-although-nothing-changed")
 	}
+}
+
+func init() {
+	verifHarness["VerifAutoSaveHistory"] = VerifAutoSaveHistory
+}
+
+// verifHookRun runs AutoSave with a hook: killed at the k-th crash point (k<0: never); act (if not nil) runs when
+// the crash point named at is reached.
+func verifHookRun(s *eval.State, opts Options, k int, at string, act func()) (killed bool, err error) {
+	n := 0
+	hook := func(label string) {
+		if n == k {
+			panic(verifKilled)
+		}
+		n++
+		if act != nil && label == at {
+			act()
+		}
+	}
+	VerifCrashHook, object.VerifCrashHook = hook, hook
+	defer func() {
+		VerifCrashHook, object.VerifCrashHook = nil, nil
+		if r := recover(); r != nil {
+			if msg, ok := r.(string); ok && msg == verifKilled {
+				killed = true
+				return
+			}
+			panic(r)
+		}
+	}()
+	err = AutoSave(s, opts)
+	return
+}
+
+func verifSession(inputs []string, a, b int64, opts Options) *eval.State {
+	s := verifStateWith(nil, a, b)
+	_ = AutoLoad(s, opts)
+	optsEval := Options{All: true, ShowEval: true, NoColor: true}
+	out := &strings.Builder{}
+	for _, in := range inputs {
+		_, _, _, _ = EvalOne(context.Background(), s, in, out, optsEval)
+	}
+	return s
+}
+
+// VerifAutoSaveHistory: histories of saves. A first session saves without incident; a second one (which made the
+// state larger) dies at an arbitrary crash point of its save, possibly leaving a temporary file behind; a third one
+// starts from what is on disk, makes the state smaller and saves - either without incident (the file is then
+// exactly its state, whatever was left behind), or with its temporary file vanishing before the rename (a failed
+// save: the file on disk must still be the complete file it started from).
+// args: first-session inputs -- second-session inputs -- third-session inputs, maxCrashPoints, mode(plain|renamefails)
+func VerifAutoSaveHistory(args []string) {
+	var parts [3][]string
+	pi := 0
+	for _, a := range args[:len(args)-2] {
+		if a == "--" {
+			pi++
+			continue
+		}
+		parts[pi] = append(parts[pi], a)
+	}
+	maxK, mode := verifAtoi(args[len(args)-2]), args[len(args)-1]
+	a, b := int64(vRange("a", 6, 7)), int64(-3)
+	vFSEnable()
+	opts := Options{AutoSave: true, AutoLoad: true}
+	s1 := verifSession(parts[0], a, b, opts)
+	killed, err := verifHookRun(s1, opts, -1, "", nil)
+	vAssert(!killed && err == nil, "history/crash-free-save-failed")
+	s2 := verifSession(parts[1], a, b, opts)
+	k := vRange("crashpoint", 0, maxK)
+	killed, _ = verifHookRun(s2, opts, k, "", nil)
+	if killed {
+		vReach("second save killed")
+	}
+	onDisk, ok := vFSContent(AutoSaveFile)
+	vAssert(ok, "history/state-file-vanished")
+	s3 := verifSession(parts[2], a, b, opts)
+	want := verifSaved(s3)
+	if mode == "renamefails" {
+		_, err = verifHookRun(s3, opts, -1, "after-write", func() {
+			for _, p := range vFSList() {
+				if strings.HasSuffix(p, ".tmp") {
+					_ = os.Remove(p)
+				}
+			}
+		})
+		vReach("save with a vanished temporary file")
+		got, ok := vFSContent(AutoSaveFile)
+		vAssert(ok, "history/failed-save-removed-the-state-file")
+		if ok {
+			vAssert(got == onDisk || (err == nil && got == want), "history/failed-save-damaged-the-state-file")
+		}
+		return
+	}
+	killed, err = verifHookRun(s3, opts, -1, "", nil)
+	vAssert(!killed && err == nil, "history/third-save-failed")
+	vReach("third save completed")
+	got, ok := vFSContent(AutoSaveFile)
+	vAssert(ok && got == want, "history/completed-save-is-not-the-new-state")
+	s4 := verifSession(nil, a, b, opts)
+	vAssert(verifSaved(s4) == want, "history/auto-load-after-completed-save-restores-something-else")
 }
